@@ -540,10 +540,15 @@ where
                                     // shrink (proptest's algorithm, bounded)
                                     let mut best = (case.clone(), reason.clone());
                                     let mut iters = 0;
+                                    // shrinking is best effort: bounded by iterations AND by wall time
+                                    // (the violation is already established; expensive cases, each tried
+                                    // under every ambient combination, must not turn a verdict into a
+                                    // watchdog timeout)
+                                    let shrink_started = Instant::now();
                                     if tree.simplify() {
                                         loop {
                                             iters += 1;
-                                            if iters > 4000 {
+                                            if iters > 4000 || shrink_started.elapsed().as_secs() > 40 {
                                                 break;
                                             }
                                             let cur = tree.current();
